@@ -205,12 +205,9 @@ func judge(c Case, res result) (v verdict) {
 			case seLenient:
 				want((res.ErrClass == "request-error" && res.Code == se.Code) || res.ErrClass == "malformed", "error/structured-error-lost:"+se.Name, "proto.RequestError with the printed code (or a malformed-plugin error)")
 			case seEmpty, seUnstructured:
-				if se.Name == "empty-object" || se.Name == "null" {
-					// {} / null may be read as a structured error without members
-					want(typedAny(res.ErrClass), "error/untyped-failure:stderr-"+se.Name, "a typed error")
-				} else {
-					want(typedExec(res.ErrClass), "error/untyped-failure:stderr-"+se.Name, "PluginExecutableFileError or PluginMalformedError")
-				}
+				// no structured error was printed ({} / null / a JSON scalar carry neither a code nor a message):
+				// the statement's "otherwise" - an error invented by the host under the plugin's name is neither
+				want(typedExec(res.ErrClass), "error/untyped-failure:stderr-"+se.Name, "PluginExecutableFileError or PluginMalformedError")
 			case seHuge:
 				want(typedAny(res.ErrClass), "error/untyped-failure:stderr-"+se.Name, "a typed error")
 			}
